@@ -127,6 +127,57 @@ def mux_case(rng, mode, nframes, big, empty_video=False):
     return [mode, sps, pps, asc2(rng), frames, want]
 
 
+def hls_case(rng, nframes):
+    """realistic interleaving for the HLS path: 25 fps video with key frames every ~1 s so that
+    segments roll over, AAC frames every ~23 ms (several per 100 ms group) of DIFFERENT sizes,
+    some timestamp jitter and an occasional jump (audio resync); closed by four video frames
+    that force two segment cuts, so that only the very last key frame stays unobserved"""
+    sps = bytes([0x67]) + rbytes(rng, rng.randint(1, 20))
+    pps = bytes([0x68]) + rbytes(rng, rng.randint(1, 6))
+    frag = rng.choice([1, 1, 2])
+    rate = rng.choice([44100, 44100, 48000, 32000])
+    MS = 1000000
+    t0 = rng.randrange(0, 3000) * MS
+    vt, at = t0, t0 + rng.randrange(0, 40) * MS
+    frames = []
+    gop = rng.randint(8, 30)
+    vi = 0
+    while len(frames) < nframes:
+        if vt <= at:
+            k = rng.random()
+            if vi % gop == 0:
+                t = 5
+            elif k < 0.08:
+                t = rng.choice([7, 8, 9, 6])
+            else:
+                t = 1
+            if t in (7, 8, 9, 6):
+                frames.append([True, vt, vt, nal(rng, rng.randint(2, 30), t)])
+            else:
+                pts = vt + rng.choice([0, 0, 40 * MS, 80 * MS])
+                frames.append([True, vt, pts, nal(rng, rng.choice([rng.randint(1, 400), rng.randint(100, 3000)]), t)])
+                vi += 1
+                vt += 40 * MS + rng.choice([0, 0, 0, 1, -1]) * rng.randrange(0, 3) * MS
+        else:
+            n = rng.choice([0] + [rng.randint(1, 700)] * 30 + [8184])
+            frames.append([False, at, at, rbytes(rng, n)])
+            at += 1024 * 1000000000 // rate + rng.choice([0, 0, 0, 1, -1]) * rng.randrange(0, 2 * MS)
+            if rng.random() < 0.02:
+                at += rng.randrange(150, 900) * MS       # gap: the time correction resyncs
+    end = max(f[2] for f in frames)
+    T1 = end + (frag + 1) * 1000 * MS
+    T2 = T1 + 40 * MS + (frag + 1) * 1000 * MS
+    frames += [[True, T1, T1, nal(rng, 50, 1)], [True, T1 + 40 * MS, T1 + 40 * MS, nal(rng, 300, 5)],
+               [True, T2, T2, nal(rng, 50, 1)], [True, T2 + 40 * MS, T2 + 40 * MS, nal(rng, 20, 5)]]
+    return [0, sps, pps, asc2(rng), frames, frag, rate]
+
+
+def hls_nontrivial(c):
+    # at least two audio frames of different sizes and a key frame
+    sizes = {len(f[3]) for f in c[4] if not f[0] and len(f[3]) > 0}
+    return len(sizes) >= 2 and any(f[0] and len(f[3]) > 0 and (f[3][0] & 0x1f) == 5 for f in c[4])
+
+
 def has_paramset(c):
     return any(f[0] and len(f[3]) > 0 and 7 <= (f[3][0] & 0x1f) <= 9 for f in c[4])
 
@@ -188,6 +239,20 @@ def run(ck):
     ck.stream("packetizers", mux0, "C09_mux", "C09_mux", "C09_mux_ok", nontrivial=mux_nontrivial, sig=msig, sample=2)
     mux1 = [mux_case(rng, 1, rng.randint(1, 30 if T else 14), big) for _ in range(300 if T else 60)]
     ck.stream("muxer", mux1, "C09_mux", "C09_mux", "C09_mux_ok", nontrivial=mux_nontrivial, sig=msig, sample=1)
+
+    # 3b. frames that are written later than they are prepared (a consumer that keeps the Frame, as
+    # hls.SegmentGenerator does): the packetizers with a deferring FrameWriter
+    mux2 = [mux_case(rng, 2, rng.randint(2, 30 if T else 14), 7000) for _ in range(400 if T else 60)]
+    for c in mux2:
+        c[5] = 0
+    ck.stream("deferred", mux2, "C09_mux", "C09_mux", "C09_mux_ok", nontrivial=mux_nontrivial, sig=msig, sample=1)
+
+    # 3c. the real HLS path: packetizers -> hls.SegmentGenerator (memory segments) -> mpegts.Writer per segment;
+    # audio is grouped (~100 ms) and flushed later than it is packetized.  No byte prediction (the
+    # segmenter is C10's model); the proved oracle ok_hls is applied to the segments.
+    hls = [hls_case(rng, rng.randint(40, 400 if T else 160)) for _ in range(300 if T else 40)]
+    ck.stream("hls_segments", hls, None, "C09_hls", "C09_hls_ok", compare=False, nontrivial=hls_nontrivial,
+              sig=lambda c, e, o: "hls", sample=1)
 
     # 4. malformed: empty video payloads (Payload[0] on an empty slice); result left open by the property
     bad = [mux_case(rng, 0, rng.randint(1, 8), 7000, empty_video=True) for _ in range(300 if T else 40)]
